@@ -361,6 +361,8 @@ func checkC19(P *Prog, r *Result) {
 	// a nil destination pointer gets a fresh allocation, never a pointer taken from the input (C03's rule):
 	// otherwise defaults, coerced values and transform results are written into the caller's data
 	shareRule(P, r, checkC03, "C03/pointer-alloc", nil, "C19/dest-not-aliased-to-input", 1)
+	// a map handed in with an option is read, not adopted: the execution writes only into maps it made (C07's rule)
+	shareRule(P, r, checkC07, "C07/pooled-map-owned", nil, "C19/option-maps-not-adopted", 2)
 }
 
 func destWriteName(w writeSite) string {
